@@ -453,23 +453,31 @@ func replaceEnvVars(s string) string {
 // replaceEnvReferences performs the actual replacement of env variables
 // in s, given the placeholder start and placeholder end strings.
 func replaceEnvReferences(s, refStart, refEnd string) string {
-	index := strings.Index(s, refStart)
-	for index != -1 {
-		endIndex := strings.Index(s[index:], refEnd)
-		if endIndex == -1 {
+	// one pass from left to right: a value is inserted as it is and is not
+	// searched for references again (a value naming itself would never end),
+	// and an empty reference such as {$} is ordinary text
+	var b strings.Builder
+	for {
+		index := strings.Index(s, refStart)
+		if index == -1 {
 			break
 		}
-
-		endIndex += index
-		if endIndex > index+len(refStart) {
-			ref := s[index : endIndex+len(refEnd)]
-			s = strings.Replace(s, ref, os.Getenv(ref[len(refStart):len(ref)-len(refEnd)]), -1)
-		} else {
-			return s
+		nameEnd := strings.Index(s[index+len(refStart):], refEnd)
+		if nameEnd == -1 {
+			break
 		}
-		index = strings.Index(s, refStart)
+		name := s[index+len(refStart) : index+len(refStart)+nameEnd]
+		refLen := len(refStart) + nameEnd + len(refEnd)
+		if name == "" {
+			b.WriteString(s[:index+refLen])
+		} else {
+			b.WriteString(s[:index])
+			b.WriteString(os.Getenv(name))
+		}
+		s = s[index+refLen:]
 	}
-	return s
+	b.WriteString(s)
+	return b.String()
 }
 
 // ServerBlock associates any number of keys (usually addresses
